@@ -525,6 +525,32 @@ def install_fallthrough(nmfu):
     SY = symbols(nmfu)
     M = nmfu.ActionOverrideMode
 
+    def outcomes(actions):
+        """where a list of actions can send control, read off the *structure* of the actions (what each kind does by the language
+        reference), not off the override modes / targets the actions report about themselves: ([(target, via_out_of_space)], may the
+        list run to its end?).  Exactly one branch of a conditional runs (none, when there is no else branch and no condition holds)."""
+        jumps = []
+        for a in actions:
+            if isinstance(a, nmfu.BreakAction):
+                j, n = outcomes(list(getattr(a.refers_to, "after_break_actions", None) or []))      # what follows the loop runs first
+                jumps.extend(j)
+                if n:
+                    jumps.append((a.refers_to.end_state, False))
+                return jumps, False
+            if isinstance(a, nmfu.FinishAction):
+                return jumps, False
+            if isinstance(a, (nmfu.AppendTo, nmfu.AppendCharTo)):
+                jumps.append((a.end_target, True))
+            elif isinstance(a, nmfu.ConditionalAction):
+                cont = not any(isinstance(c, nmfu.ElseCondition) for c in a.conditions)
+                for c in a.conditions:
+                    j, n = outcomes(a.sub_actions[c])
+                    jumps.extend(j)
+                    cont = cont or n
+                if not cont:
+                    return jumps, False
+        return jumps, True
+
     def moves(state, sym):
         """non-consuming successors of `state` on `sym`: list of (target, via_oos)"""
         out = []
@@ -534,24 +560,10 @@ def install_fallthrough(nmfu):
             t = lookup(nmfu, state, sym)
             ts = [t] if t is not None else []
         for t in ts:
-            normal = True
-            for a in t.actions:
-                for sub in a.all_subactions():
-                    if isinstance(sub, (nmfu.AppendTo, nmfu.AppendCharTo)):
-                        out.append((sub.end_target, True))      # redispatch at the handler without consuming
-                m = a.get_target_override_mode()
-                if m == M.ALWAYS_GOTO_UNDEFINED:
-                    normal = False
-                    break
-                if m == M.ALWAYS_GOTO_OTHER:
-                    normal = False
-                    if t.is_fallthrough:
-                        out.extend((x, False) for x in a.get_target_override_targets()[:1])
-                    break
-                if m == M.MAY_GOTO_TARGET and t.is_fallthrough:
-                    for sub in a.all_subactions():
-                        if isinstance(sub, nmfu.BreakAction):
-                            out.append((sub.refers_to.end_state, False))
+            jumps, normal = outcomes(t.actions)
+            for tgt, oos in jumps:
+                if oos or t.is_fallthrough:           # an out-of-space redirect re-dispatches the byte at the handler; a break leaves
+                    out.append((tgt, oos))            # without consuming only when its transition does not consume
             if normal and t.is_fallthrough and t.target is not None:
                 out.append((t.target, False))
         return out
